@@ -194,6 +194,10 @@ class IntervalTier(textgrid_tier.TextgridTier):
             the modified version of the current tier
         """
         referenceTimestamps = referenceTier.timestamps
+        if len(referenceTimestamps) == 0:
+            raise errors.ArgumentError(
+                "Cannot dejitter: the reference tier has no timestamps"
+            )
 
         newEntries = []
         for start, stop, label in self.entries:
@@ -718,6 +722,10 @@ class IntervalTier(textgrid_tier.TextgridTier):
                 newEnd = newStart + currIntervalDuration
 
             newEntryList.append(Interval(newStart, newEnd, sourceInterval.label))
+
+        # Nothing to morph
+        if len(newEntryList) == 0:
+            return self.new()
 
         newMin = self.minTimestamp
         cumulativeDifference = newEntryList[-1].end - self.entries[-1].end
